@@ -415,3 +415,59 @@ func CountPlaceholders(template string, m Mode) (int, error) {
 	}
 	return n, nil
 }
+
+// RenderNoBackslash renders b as the body of a string literal quoted with q for
+// a server running with NO_BACKSLASH_ESCAPES (9.1.1: the only special character
+// is the quote itself, written twice).
+func RenderNoBackslash(b []byte, q byte) string {
+	out := make([]byte, 0, len(b)+2)
+	for _, c := range b {
+		if c == q {
+			out = append(out, q)
+		}
+		out = append(out, c)
+	}
+	return string(out)
+}
+
+// CutInsideValue recognises a statement text that is the expected text cut off
+// at a ';' lying inside the literal of a string parameter, read under
+// NO_BACKSLASH_ESCAPES: got must be exactly
+//
+//	<text matching the template up to placeholder k, earlier values right> ' <correct rendering of value[:i]>
+//
+// with value[i] == ';'. It returns the placeholder and the offset of the cut.
+func CutInsideValue(template, got string, m Mode, params []Param) (ok bool, k int, at int) {
+	if !m.NoBackslashEscapes {
+		return false, 0, 0
+	}
+	tt, err := Lex(template, m)
+	if err != nil {
+		return false, 0, 0
+	}
+	k = -1
+	for _, t := range tt {
+		if t.Kind != Placeholder {
+			continue
+		}
+		k++
+		if k >= len(params) || params[k].Kind != "str" {
+			continue
+		}
+		v := params[k].Bytes
+		for i := 0; i < len(v); i++ {
+			if v[i] != ';' {
+				continue
+			}
+			suffix := "'" + RenderNoBackslash(v[:i], '\'')
+			if !strings.HasSuffix(got, suffix) {
+				continue
+			}
+			head := got[:len(got)-len(suffix)]
+			if Match(template[:t.Pos], head, m, params[:k], nil).OK {
+				return true, k, i
+			}
+		}
+	}
+	return false, 0, 0
+}
